@@ -4,27 +4,35 @@ package main
 //
 // A deliberately tiny Go-subset translator (go/parser + go/ast only, no go/types):
 //
-//   func Name(p1, p2 T) R { stmts }      T in {uint64, int64, bool, float64}, R in {int, bool}
-//   stmt  ::= "if" cond "{" stmts "}" [ "else" ( ifstmt | "{" stmts "}" ) ]  |  "return" expr
-//   cond  ::= param (">" | "<" | ">=" | "<=" | "==" | "!=") param | param(bool) | "!" cond
-//           | cond "&&" cond | cond "||" cond | "(" cond ")" | "true" | "false"
-//   expr  ::= integer literal | "-" integer literal            (R = int)
-//           | cond                                            (R = bool)
+//   func Name(p1, p2 T) R { stmts }      T in {uint64, int64, bool, float64}, R in {int, bool, uint64}
+//   stmt  ::= x ":=" expr                                   (top level of the body only, fresh name)
+//           | "if" cond "{" stmts "}" [ "else" ( ifstmt | "{" stmts "}" ) ]  |  "return" expr
+//   expr  ::= parameter | local | integer constant expression (literals, <<, >>, |, &, ^, unary -)
+//           | "math.Float64bits(" expr:float64 ")"          (identity: floats ARE their bit patterns)
+//           | f "(" exprs ")"                                (another function of types.go that is
+//                                                             itself inside this subset; translated
+//                                                             too and emitted before its caller)
+//           | expr ("&" | "|" | "^") expr | "^" expr         (uint64 only)
+//           | expr (">" | "<" | ">=" | "<=" | "==" | "!=") expr
+//           | "!" expr | expr "&&" expr | expr "||" expr | "true" | "false" | "(" expr ")"
+//   return: an integer constant (R = int), a bool expression (R = bool), a uint64 expression (R = uint64)
 //
-// Every path must end in a return. Anything else (calls, assignments, loops, arithmetic,
-// other types, a parameter compared with a literal, ...) makes the extractor exit non-zero.
+// Every path must end in a return. Anything else (loops, arithmetic, variable shifts, conversions,
+// other packages' functions, float constants, re-assignment, ...) makes the extractor exit non-zero.
 //
-// Typing of the comparison operators is decided by the declared parameter type:
-//   uint64  -> BitVec 64, unsigned order (BitVec.ult / BitVec.ule)
+// Types are tracked syntactically from the declared parameter/result types:
+//   uint64  -> BitVec 64, unsigned order (BitVec.ult / BitVec.ule), &&& ||| ^^^ ~~~
 //   int64   -> BitVec 64, signed order   (BitVec.slt / BitVec.sle)
 //   bool    -> Bool
-//   float64 -> BitVec 64 BIT PATTERN, compared through Stef.Flt.lt / gt / eq (IEEE-754:
-//              NaN unordered, -0 = +0). `!=` is `!(Flt.eq ..)`. `<=`/`>=` on floats are refused.
+//   float64 -> BitVec 64 BIT PATTERN; Go's IEEE-754 operators on floats are Stef.Flt.lt / gt / eq
+//              (NaN unordered, -0 = +0), `!=` is `!(Flt.eq ..)`, `<=`/`>=` on floats are refused.
+//   an untyped integer constant takes the type of the other operand.
 
 import (
 	"fmt"
 	"go/ast"
 	"go/token"
+	"math/big"
 	"strings"
 )
 
@@ -33,153 +41,258 @@ var funcsWanted = []string{
 	"Uint64Equal", "Int64Equal", "BoolEqual", "Float64Equal",
 }
 
+var leanTy = map[string]string{"uint64": "BitVec 64", "int64": "BitVec 64", "float64": "BitVec 64", "bool": "Bool", "int": "Int"}
+
+type fnSig struct {
+	params []string // go types
+	ret    string
+}
+
+// funcsTr translates functions of one file on demand, callees first.
+type funcsTr struct {
+	fset    *token.FileSet
+	decls   map[string]*ast.FuncDecl
+	done    map[string]*fnSig
+	active  map[string]bool
+	order   []string          // emission order
+	text    map[string]string // lean definitions
+	usesFlt bool
+}
+
 type fnTr struct {
-	name   string
-	fset   *token.FileSet
-	params map[string]string // name -> go type
-	ret    string            // "int" | "bool"
+	ft   *funcsTr
+	name string
+	vars map[string]string // parameter / local name -> go type
+	ret  string            // "int" | "bool" | "uint64"
+}
+
+// tv is a translated expression: lean term, go type ("const" for an untyped integer constant)
+type tv struct {
+	s  string
+	ty string
+	c  *big.Int
 }
 
 func (t *fnTr) fail(n ast.Node, f string, a ...any) {
-	die("types.go func %s at %s: %s (outside the translated Go subset)", t.name, t.fset.Position(n.Pos()), fmt.Sprintf(f, a...))
+	die("types.go func %s at %s: %s (outside the translated Go subset)", t.name, t.ft.fset.Position(n.Pos()), fmt.Sprintf(f, a...))
 }
 
-func (t *fnTr) paramOf(x ast.Expr) (string, string) {
-	for {
-		p, ok := x.(*ast.ParenExpr)
-		if !ok {
-			break
+var two64 = new(big.Int).Lsh(big.NewInt(1), 64)
+
+// as renders v at go type ty (gives a constant its type).
+func (t *fnTr) as(n ast.Node, v tv, ty string) string {
+	if v.ty == ty {
+		return v.s
+	}
+	if v.ty != "const" {
+		t.fail(n, "operand of type %s where %s is needed", v.ty, ty)
+	}
+	switch ty {
+	case "uint64":
+		if v.c.Sign() < 0 || v.c.Cmp(two64) >= 0 {
+			t.fail(n, "constant %s overflows uint64", v.c)
 		}
-		x = p.X
+		return fmt.Sprintf("0x%x#64", v.c)
+	case "int64":
+		lim := new(big.Int).Lsh(big.NewInt(1), 63)
+		if v.c.Cmp(lim) >= 0 || v.c.Cmp(new(big.Int).Neg(lim)) < 0 {
+			t.fail(n, "constant %s overflows int64", v.c)
+		}
+		return fmt.Sprintf("(BitVec.ofInt 64 (%s))", v.c)
+	case "int":
+		if v.c.Sign() < 0 {
+			return fmt.Sprintf("(%s)", v.c)
+		}
+		return v.c.String()
 	}
-	id, ok := x.(*ast.Ident)
-	if !ok {
-		t.fail(x, "operand %T is not a parameter", x)
-	}
-	ty, ok := t.params[id.Name]
-	if !ok {
-		t.fail(x, "identifier %s is not a parameter", id.Name)
-	}
-	return id.Name, ty
+	t.fail(n, "integer constant used at type %s", ty)
+	return ""
 }
 
-// cond translates a boolean Go expression into a Lean `Bool` term.
-func (t *fnTr) cond(x ast.Expr) string {
+func (t *fnTr) expr(x ast.Expr) tv {
 	switch v := x.(type) {
 	case *ast.ParenExpr:
-		return t.cond(v.X)
+		return t.expr(v.X)
+	case *ast.BasicLit:
+		if v.Kind != token.INT {
+			t.fail(x, "literal %s is not an integer", v.Value)
+		}
+		c, ok := new(big.Int).SetString(v.Value, 0)
+		if !ok {
+			t.fail(x, "integer literal %s", v.Value)
+		}
+		return tv{ty: "const", c: c}
 	case *ast.Ident:
 		if v.Name == "true" || v.Name == "false" {
-			return v.Name
+			return tv{s: v.Name, ty: "bool"}
 		}
-		n, ty := t.paramOf(v)
-		if ty != "bool" {
-			t.fail(x, "parameter %s of type %s used as a condition", n, ty)
+		ty, ok := t.vars[v.Name]
+		if !ok {
+			t.fail(x, "identifier %s is neither a parameter nor a local", v.Name)
 		}
-		return n
+		return tv{s: v.Name, ty: ty}
 	case *ast.UnaryExpr:
-		if v.Op == token.NOT {
-			return "(!" + t.cond(v.X) + ")"
+		a := t.expr(v.X)
+		switch {
+		case v.Op == token.NOT && a.ty == "bool":
+			return tv{s: "(!" + a.s + ")", ty: "bool"}
+		case v.Op == token.XOR && a.ty == "uint64":
+			return tv{s: "(~~~" + a.s + ")", ty: "uint64"}
+		case v.Op == token.SUB && a.ty == "const":
+			return tv{ty: "const", c: new(big.Int).Neg(a.c)}
 		}
-		t.fail(x, "unary operator %s", v.Op)
+		t.fail(x, "unary operator %s on %s", v.Op, a.ty)
 	case *ast.BinaryExpr:
-		if v.Op == token.LAND {
-			return "(" + t.cond(v.X) + " && " + t.cond(v.Y) + ")"
-		}
-		if v.Op == token.LOR {
-			return "(" + t.cond(v.X) + " || " + t.cond(v.Y) + ")"
-		}
-		l, lt := t.paramOf(v.X)
-		r, rt := t.paramOf(v.Y)
-		if lt != rt {
-			t.fail(x, "operands of different types %s, %s", lt, rt)
-		}
-		switch lt {
-		case "uint64":
-			switch v.Op {
-			case token.GTR:
-				return fmt.Sprintf("(BitVec.ult %s %s)", r, l)
-			case token.LSS:
-				return fmt.Sprintf("(BitVec.ult %s %s)", l, r)
-			case token.GEQ:
-				return fmt.Sprintf("(BitVec.ule %s %s)", r, l)
-			case token.LEQ:
-				return fmt.Sprintf("(BitVec.ule %s %s)", l, r)
-			case token.EQL:
-				return fmt.Sprintf("(%s == %s)", l, r)
-			case token.NEQ:
-				return fmt.Sprintf("(%s != %s)", l, r)
+		a, b := t.expr(v.X), t.expr(v.Y)
+		switch v.Op {
+		case token.LAND, token.LOR:
+			if a.ty != "bool" || b.ty != "bool" {
+				t.fail(x, "operator %s on %s, %s", v.Op, a.ty, b.ty)
 			}
-		case "int64":
-			switch v.Op {
-			case token.GTR:
-				return fmt.Sprintf("(BitVec.slt %s %s)", r, l)
-			case token.LSS:
-				return fmt.Sprintf("(BitVec.slt %s %s)", l, r)
-			case token.GEQ:
-				return fmt.Sprintf("(BitVec.sle %s %s)", r, l)
-			case token.LEQ:
-				return fmt.Sprintf("(BitVec.sle %s %s)", l, r)
-			case token.EQL:
-				return fmt.Sprintf("(%s == %s)", l, r)
-			case token.NEQ:
-				return fmt.Sprintf("(%s != %s)", l, r)
+			op := " && "
+			if v.Op == token.LOR {
+				op = " || "
 			}
-		case "bool":
-			switch v.Op {
-			case token.EQL:
-				return fmt.Sprintf("(%s == %s)", l, r)
-			case token.NEQ:
-				return fmt.Sprintf("(%s != %s)", l, r)
+			return tv{s: "(" + a.s + op + b.s + ")", ty: "bool"}
+		case token.SHL, token.SHR:
+			if a.ty != "const" || b.ty != "const" || !b.c.IsUint64() || b.c.Uint64() > 1024 {
+				t.fail(x, "shift that is not a constant expression")
 			}
-		case "float64":
-			switch v.Op {
-			case token.GTR:
-				return fmt.Sprintf("(Stef.Flt.gt %s %s)", l, r)
-			case token.LSS:
-				return fmt.Sprintf("(Stef.Flt.lt %s %s)", l, r)
-			case token.EQL:
-				return fmt.Sprintf("(Stef.Flt.eq %s %s)", l, r)
-			case token.NEQ:
-				return fmt.Sprintf("(!(Stef.Flt.eq %s %s))", l, r)
+			if v.Op == token.SHL {
+				return tv{ty: "const", c: new(big.Int).Lsh(a.c, uint(b.c.Uint64()))}
 			}
+			return tv{ty: "const", c: new(big.Int).Rsh(a.c, uint(b.c.Uint64()))}
+		case token.AND, token.OR, token.XOR:
+			if a.ty == "const" && b.ty == "const" {
+				r := new(big.Int)
+				switch v.Op {
+				case token.AND:
+					r.And(a.c, b.c)
+				case token.OR:
+					r.Or(a.c, b.c)
+				default:
+					r.Xor(a.c, b.c)
+				}
+				return tv{ty: "const", c: r}
+			}
+			if a.ty != "uint64" && b.ty != "uint64" {
+				t.fail(x, "operator %s on %s, %s (uint64 only)", v.Op, a.ty, b.ty)
+			}
+			op := map[token.Token]string{token.AND: "&&&", token.OR: "|||", token.XOR: "^^^"}[v.Op]
+			return tv{s: fmt.Sprintf("(%s %s %s)", t.as(v.X, a, "uint64"), op, t.as(v.Y, b, "uint64")), ty: "uint64"}
+		case token.GTR, token.LSS, token.GEQ, token.LEQ, token.EQL, token.NEQ:
+			ty := a.ty
+			if ty == "const" {
+				ty = b.ty
+			}
+			if ty == "const" {
+				t.fail(x, "comparison of two constants")
+			}
+			l, r := t.as(v.X, a, ty), t.as(v.Y, b, ty)
+			var s string
+			switch ty {
+			case "uint64", "int64":
+				lt, le := "BitVec.ult", "BitVec.ule"
+				if ty == "int64" {
+					lt, le = "BitVec.slt", "BitVec.sle"
+				}
+				switch v.Op {
+				case token.GTR:
+					s = fmt.Sprintf("(%s %s %s)", lt, r, l)
+				case token.LSS:
+					s = fmt.Sprintf("(%s %s %s)", lt, l, r)
+				case token.GEQ:
+					s = fmt.Sprintf("(%s %s %s)", le, r, l)
+				case token.LEQ:
+					s = fmt.Sprintf("(%s %s %s)", le, l, r)
+				case token.EQL:
+					s = fmt.Sprintf("(%s == %s)", l, r)
+				case token.NEQ:
+					s = fmt.Sprintf("(%s != %s)", l, r)
+				}
+			case "bool":
+				switch v.Op {
+				case token.EQL:
+					s = fmt.Sprintf("(%s == %s)", l, r)
+				case token.NEQ:
+					s = fmt.Sprintf("(%s != %s)", l, r)
+				}
+			case "float64":
+				t.ft.usesFlt = true
+				switch v.Op {
+				case token.GTR:
+					s = fmt.Sprintf("(Stef.Flt.gt %s %s)", l, r)
+				case token.LSS:
+					s = fmt.Sprintf("(Stef.Flt.lt %s %s)", l, r)
+				case token.EQL:
+					s = fmt.Sprintf("(Stef.Flt.eq %s %s)", l, r)
+				case token.NEQ:
+					s = fmt.Sprintf("(!(Stef.Flt.eq %s %s))", l, r)
+				}
+			}
+			if s == "" {
+				t.fail(x, "operator %s on %s", v.Op, ty)
+			}
+			return tv{s: s, ty: "bool"}
 		}
-		t.fail(x, "operator %s on %s", v.Op, lt)
+		t.fail(x, "binary operator %s", v.Op)
+	case *ast.CallExpr:
+		if v.Ellipsis.IsValid() {
+			t.fail(x, "variadic call")
+		}
+		if sel, ok := v.Fun.(*ast.SelectorExpr); ok {
+			if pk, ok := sel.X.(*ast.Ident); ok && pk.Name == "math" && sel.Sel.Name == "Float64bits" && len(v.Args) == 1 {
+				if _, shadow := t.vars["math"]; shadow {
+					t.fail(x, "identifier math is shadowed")
+				}
+				a := t.expr(v.Args[0])
+				if a.ty != "float64" {
+					t.fail(x, "math.Float64bits of %s", a.ty)
+				}
+				return tv{s: a.s, ty: "uint64"} // a float64 is modelled as its bit pattern
+			}
+			t.fail(x, "call of %s", exprString(v.Fun))
+		}
+		id, ok := v.Fun.(*ast.Ident)
+		if !ok {
+			t.fail(x, "call of %T", v.Fun)
+		}
+		if _, shadow := t.vars[id.Name]; shadow {
+			t.fail(x, "call of a variable %s", id.Name)
+		}
+		sig := t.ft.translate(id.Name, x)
+		if len(sig.params) != len(v.Args) {
+			t.fail(x, "call of %s with %d arguments", id.Name, len(v.Args))
+		}
+		var as []string
+		for i, a := range v.Args {
+			as = append(as, t.as(a, t.expr(a), sig.params[i]))
+		}
+		return tv{s: fmt.Sprintf("(%s %s)", leanName(id.Name), strings.Join(as, " ")), ty: sig.ret}
 	}
 	t.fail(x, "expression %T", x)
-	return ""
+	return tv{}
+}
+
+func (t *fnTr) cond(x ast.Expr) string {
+	v := t.expr(x)
+	if v.ty != "bool" {
+		t.fail(x, "condition of type %s", v.ty)
+	}
+	return v.s
 }
 
 func (t *fnTr) retExpr(x ast.Expr) string {
-	if t.ret == "bool" {
-		return t.cond(x)
+	v := t.expr(x)
+	if t.ret == "int" && v.ty != "const" {
+		t.fail(x, "return expression of an int function is not an integer constant")
 	}
-	switch v := x.(type) {
-	case *ast.ParenExpr:
-		return t.retExpr(v.X)
-	case *ast.BasicLit:
-		if v.Kind == token.INT {
-			for _, c := range v.Value {
-				if c < '0' || c > '9' {
-					t.fail(x, "integer literal %s", v.Value)
-				}
-			}
-			return v.Value
-		}
-	case *ast.UnaryExpr:
-		if v.Op == token.SUB {
-			if lit, ok := v.X.(*ast.BasicLit); ok && lit.Kind == token.INT {
-				return "(-" + t.retExpr(lit) + ")"
-			}
-		}
-	}
-	t.fail(x, "return expression %T is not an integer constant", x)
-	return ""
+	return t.as(x, v, t.ret)
 }
 
 // stmts translates a statement list followed by `rest` (the translation of what follows the
 // enclosing statement, "" if nothing follows). Every path must end in a return.
-func (t *fnTr) stmts(list []ast.Stmt, rest string, ind string) string {
+func (t *fnTr) stmts(list []ast.Stmt, rest string, ind string, top bool) string {
 	if len(list) == 0 {
 		if rest == "" {
 			die("types.go func %s: a path does not end in a return (outside the translated Go subset)", t.name)
@@ -196,16 +309,41 @@ func (t *fnTr) stmts(list []ast.Stmt, rest string, ind string) string {
 			t.fail(list[1], "statement after return")
 		}
 		return t.retExpr(v.Results[0])
+	case *ast.AssignStmt:
+		if !top {
+			t.fail(s, "local definition inside a nested block")
+		}
+		if v.Tok != token.DEFINE || len(v.Lhs) != 1 || len(v.Rhs) != 1 {
+			t.fail(s, "assignment that is not `x := expr`")
+		}
+		id, ok := v.Lhs[0].(*ast.Ident)
+		if !ok || id.Name == "_" {
+			t.fail(s, "assignment target")
+		}
+		if _, dup := t.vars[id.Name]; dup {
+			t.fail(s, "%s is defined twice", id.Name)
+		}
+		if _, isFn := t.ft.decls[id.Name]; isFn || id.Name == "math" || id.Name == "true" || id.Name == "false" {
+			t.fail(s, "local %s shadows a function or package", id.Name)
+		}
+		e := t.expr(v.Rhs[0])
+		if e.ty == "const" {
+			t.fail(s, "local initialised with an untyped constant")
+		}
+		t.vars[id.Name] = e.ty
+		after := t.stmts(list[1:], rest, ind, top)
+		return fmt.Sprintf("let %s : %s := %s\n%s%s", id.Name, leanTy[e.ty], e.s, ind, after)
 	case *ast.IfStmt:
 		if v.Init != nil {
 			t.fail(s, "if with init statement")
 		}
 		after := ""
 		if len(list) > 1 || rest != "" {
-			after = t.stmts(list[1:], rest, ind+"  ")
+			after = t.stmts(list[1:], rest, ind+"  ", top)
+			top = false
 		}
 		c := t.cond(v.Cond)
-		then := t.stmts(v.Body.List, after, ind+"  ")
+		then := t.stmts(v.Body.List, after, ind+"  ", false)
 		var els string
 		switch e := v.Else.(type) {
 		case nil:
@@ -214,9 +352,9 @@ func (t *fnTr) stmts(list []ast.Stmt, rest string, ind string) string {
 			}
 			els = after
 		case *ast.BlockStmt:
-			els = t.stmts(e.List, after, ind+"  ")
+			els = t.stmts(e.List, after, ind+"  ", false)
 		case *ast.IfStmt:
-			els = t.stmts([]ast.Stmt{e}, after, ind+"  ")
+			els = t.stmts([]ast.Stmt{e}, after, ind+"  ", false)
 		default:
 			t.fail(s, "else %T", v.Else)
 		}
@@ -228,6 +366,68 @@ func (t *fnTr) stmts(list []ast.Stmt, rest string, ind string) string {
 
 func leanName(goName string) string { return strings.ToLower(goName[:1]) + goName[1:] }
 
+// translate translates function `name` (and, first, the functions it calls) once.
+func (ft *funcsTr) translate(name string, at ast.Node) *fnSig {
+	if sig, ok := ft.done[name]; ok {
+		return sig
+	}
+	where := "types.go"
+	if at != nil {
+		where = ft.fset.Position(at.Pos()).String()
+	}
+	if ft.active[name] {
+		die("%s: function %s is recursive (outside the translated Go subset)", where, name)
+	}
+	fd, ok := ft.decls[name]
+	if !ok {
+		die("%s: function %s not found in types.go (outside the translated Go subset)", where, name)
+	}
+	if fd.Body == nil {
+		die("types.go: function %s has no body", name)
+	}
+	if fd.Type.TypeParams != nil {
+		die("types.go: function %s is generic (outside the translated Go subset)", name)
+	}
+	ft.active[name] = true
+	t := &fnTr{ft: ft, name: name, vars: map[string]string{}}
+	sig := &fnSig{}
+	var ps []string
+	for _, fl := range fd.Type.Params.List {
+		id, ok := fl.Type.(*ast.Ident)
+		if !ok || id.Name == "int" || leanTy[id.Name] == "" {
+			t.fail(fl, "parameter type is not uint64/int64/bool/float64")
+		}
+		if len(fl.Names) == 0 {
+			t.fail(fl, "unnamed parameter")
+		}
+		for _, n := range fl.Names {
+			if n.Name == "_" {
+				t.fail(fl, "blank parameter")
+			}
+			t.vars[n.Name] = id.Name
+			sig.params = append(sig.params, id.Name)
+			ps = append(ps, fmt.Sprintf("(%s : %s)", n.Name, leanTy[id.Name]))
+		}
+	}
+	if fd.Type.Results == nil || len(fd.Type.Results.List) != 1 || len(fd.Type.Results.List[0].Names) != 0 {
+		die("types.go: function %s must have exactly one unnamed result", name)
+	}
+	rid, ok := fd.Type.Results.List[0].Type.(*ast.Ident)
+	if !ok || (rid.Name != "int" && rid.Name != "bool" && rid.Name != "uint64") {
+		die("types.go: function %s: result type must be int, bool or uint64", name)
+	}
+	t.ret, sig.ret = rid.Name, rid.Name
+	body := t.stmts(fd.Body.List, "", "  ", true)
+	var sb strings.Builder
+	fmt.Fprintf(&sb, "/-- go/pkg/types.go `%s(%s) %s` -/\n", name, strings.Join(sig.params, ", "), t.ret)
+	fmt.Fprintf(&sb, "def %s %s : %s :=\n  %s\n\n", leanName(name), strings.Join(ps, " "), leanTy[t.ret], body)
+	ft.text[name] = sb.String()
+	ft.order = append(ft.order, name)
+	ft.done[name] = sig
+	delete(ft.active, name)
+	return sig
+}
+
 func genFuncs() {
 	fset, f := parseFile("go/pkg/types.go")
 	decls := map[string]*ast.FuncDecl{}
@@ -236,62 +436,22 @@ func genFuncs() {
 			decls[fd.Name.Name] = fd
 		}
 	}
+	ft := &funcsTr{fset: fset, decls: decls, done: map[string]*fnSig{}, active: map[string]bool{}, text: map[string]string{}}
+	for _, name := range funcsWanted {
+		ft.translate(name, nil)
+	}
 	var sb strings.Builder
 	sb.WriteString("/- GENERATED by /verif/extract (funcs.go) from go/pkg/types.go. Do not edit.\n")
 	sb.WriteString("   uint64 -> BitVec 64 unsigned, int64 -> BitVec 64 signed, bool -> Bool,\n")
-	sb.WriteString("   float64 -> BitVec 64 bit pattern compared through Stef.Flt (IEEE-754). -/\n")
-	sb.WriteString("import Stef.Flt\n\nnamespace Stef.Gen\n\n")
-	leanTy := map[string]string{"uint64": "BitVec 64", "int64": "BitVec 64", "float64": "BitVec 64", "bool": "Bool"}
-	for _, name := range funcsWanted {
-		fd, ok := decls[name]
-		if !ok {
-			die("types.go: function %s not found", name)
-		}
-		if fd.Body == nil {
-			die("types.go: function %s has no body", name)
-		}
-		if fd.Type.TypeParams != nil {
-			die("types.go: function %s is generic (outside the translated Go subset)", name)
-		}
-		t := &fnTr{name: name, fset: fset, params: map[string]string{}}
-		var ps []string
-		for _, fl := range fd.Type.Params.List {
-			id, ok := fl.Type.(*ast.Ident)
-			if !ok || leanTy[id.Name] == "" {
-				t.fail(fl, "parameter type is not uint64/int64/bool/float64")
-			}
-			if len(fl.Names) == 0 {
-				t.fail(fl, "unnamed parameter")
-			}
-			for _, n := range fl.Names {
-				if n.Name == "_" {
-					t.fail(fl, "blank parameter")
-				}
-				t.params[n.Name] = id.Name
-				ps = append(ps, fmt.Sprintf("(%s : %s)", n.Name, leanTy[id.Name]))
-			}
-		}
-		if fd.Type.Results == nil || len(fd.Type.Results.List) != 1 || len(fd.Type.Results.List[0].Names) != 0 {
-			die("types.go: function %s must have exactly one unnamed result", name)
-		}
-		rid, ok := fd.Type.Results.List[0].Type.(*ast.Ident)
-		if !ok || (rid.Name != "int" && rid.Name != "bool") {
-			die("types.go: function %s: result type must be int or bool", name)
-		}
-		t.ret = rid.Name
-		rty := "Int"
-		if t.ret == "bool" {
-			rty = "Bool"
-		}
-		var ptys []string
-		for _, fl := range fd.Type.Params.List {
-			for range fl.Names {
-				ptys = append(ptys, fl.Type.(*ast.Ident).Name)
-			}
-		}
-		body := t.stmts(fd.Body.List, "", "  ")
-		fmt.Fprintf(&sb, "/-- go/pkg/types.go `%s(%s) %s` -/\n", name, strings.Join(ptys, ", "), t.ret)
-		fmt.Fprintf(&sb, "def %s %s : %s :=\n  %s\n\n", leanName(name), strings.Join(ps, " "), rty, body)
+	sb.WriteString("   float64 -> BitVec 64 bit pattern (math.Float64bits is the identity); Go's float operators\n")
+	sb.WriteString("   <, >, == would go through Stef.Flt (IEEE-754). -/\n")
+	if ft.usesFlt {
+		sb.WriteString("import Stef.Flt\n")
+	}
+	sb.WriteString("\nnamespace Stef.Gen\n\n")
+	fmt.Fprintf(&sb, "/-- whether a translated function uses Go's IEEE-754 float operators (Stef.Flt) -/\ndef usesFloatOperators : Bool := %v\n\n", ft.usesFlt)
+	for _, name := range ft.order {
+		sb.WriteString(ft.text[name])
 	}
 	// The string comparators are modelled by hand (Stef/Cmp.lean: lexicographic byte order, which is
 	// what strings.Compare computes). The tie is that they still are exactly that one call.
